@@ -227,7 +227,8 @@ def const_via_function(text):
         return m.group(0)
       used.add(m.group(0))
       return 'Kc%s()' % m.group(0)
-    nb = re.sub(r'(?<![\w."\'\[@-])\d+(?![\w."\'\]])', sub, body)
+    # (a digit that is the aggregation operator `1` -- `v 1= (...)`, `1{...}`, `combine 1= ...` -- is not a literal)
+    nb = re.sub(r'(?<![\w."\'\[@-])\d+(?![\w."\'\]])(?!\s*(?:=(?!=)|\{))', sub, body)
     if nb != body:
       changed = True
       sts[k] = head + nb + ';'
